@@ -564,6 +564,7 @@ class ProductState:
                 dims = jnp.prod(jnp.array([s.dimensions for s in self.state_objs]))
                 self.state = ps.reshape((dims, 1))
                 return True
+            return True
 
         if self.expansion_level == ExpansionLevel.Matrix:
             shape = [so.dimensions for so in self.state_objs]
@@ -603,6 +604,7 @@ class ProductState:
                 dims = jnp.prod(jnp.array([s.dimensions for s in self.state_objs]))
                 self.state = jnp.array(ps.reshape((dims, dims)))
                 return True
+            return True
         return False
 
     def apply_operation(self, operation: Operation, *states: "BaseState") -> None:
